@@ -31,7 +31,7 @@ abbrev Iv := Int × Int
 def Mem (x : Int) (rs : List Iv) : Prop := ∃ r ∈ rs, r.1 ≤ x ∧ x ≤ r.2
 
 /-- `⟦a⟧ ⊆ ⟦b⟧` -/
-def Subset (a b : List Iv) : Prop := ∀ x, Mem x a → Mem x b
+def Within (a b : List Iv) : Prop := ∀ x, Mem x a → Mem x b
 
 /-- `⟦a⟧ = ⟦b⟧` -/
 def SetEq (a b : List Iv) : Prop := ∀ x, Mem x a ↔ Mem x b
@@ -69,16 +69,24 @@ def subsetB (a b : List Iv) : Bool :=
 def setEqB (a b : List Iv) : Bool := subsetB a b && subsetB b a
 
 /-- least element of `⟦p⟧` (none for the empty set) -/
-def lowest (p : List Iv) : Option Int :=
-  (p.filter fun r => decide (r.1 ≤ r.2)).foldl (fun acc r => match acc with
-    | none => some r.1
-    | some m => some (if r.1 < m then r.1 else m)) none
+def lowest : List Iv → Option Int
+  | [] => none
+  | r :: rs =>
+    if r.1 ≤ r.2 then
+      match lowest rs with
+      | none => some r.1
+      | some m => some (if r.1 < m then r.1 else m)
+    else lowest rs
 
 /-- greatest element of `⟦p⟧` (none for the empty set) -/
-def highest (p : List Iv) : Option Int :=
-  (p.filter fun r => decide (r.1 ≤ r.2)).foldl (fun acc r => match acc with
-    | none => some r.2
-    | some m => some (if m < r.2 then r.2 else m)) none
+def highest : List Iv → Option Int
+  | [] => none
+  | r :: rs =>
+    if r.1 ≤ r.2 then
+      match highest rs with
+      | none => some r.2
+      | some m => some (if m < r.2 then r.2 else m)
+    else highest rs
 
 /-! ### The written restriction -/
 
